@@ -128,5 +128,5 @@ def run(ctx, ck):
     # the closed-form self term describes one segment: its length and its radius are of the same pulse
     ck.rule('R-ROLE.self-term', 'length and radius combined in one closed-form potential term belong to the same pulse of the pair')
     from ._roles import check_self_term_roles
-    ck.floor('closed-form terms combining length and radius', check_self_term_roles(ctx, ck), 2)
+    ck.floor('closed-form terms combining length and radius', check_self_term_roles(ctx, ck), 1)
     ck.undecided += ['numeric equality under wire reversal / reordering / splitting']
